@@ -17,7 +17,7 @@ def main():
         rc = py2lean_targets.regen_all() or 0
     except ImportError:
         pass
-    for gen in ('gen_classtable', 'gen_adim'):
+    for gen in ('gen_classtable', 'gen_adim', 'gen_bhref'):
         try:
             mod = __import__(gen)
         except ImportError:
